@@ -197,7 +197,7 @@ pub fn run(ctx: &mut Ctx) -> Report {
 	// octets and beyond): one custom extension / attribute value / revoked list sized for it, signed
 	// by a local and by a remote key
 	{
-		let sizes: Vec<usize> = if s.ctx.thorough { vec![60, 150, 400, 65_000, 65_300, 65_600, 70_000, 140_000, 1_100_000] } else { vec![60, 150, 400, 65_300, 65_600, 70_000] };
+		let sizes: Vec<usize> = if s.ctx.thorough { vec![60, 150, 400, 65_000, 65_300, 65_600, 70_000, 140_000, 300_000] } else { vec![60, 150, 400, 65_300, 65_600, 70_000] };
 		let picks: Vec<usize> = signers.iter().enumerate().filter(|(_, x)| x.name == "ed25519" && (x.origin == "local" || x.origin == "remote")).map(|(i, _)| i).collect();
 		for &si in &picks {
 			for &n in &sizes {
